@@ -375,8 +375,14 @@ fn parts_ok(t3: &mut Vec<String>, ty: &str, lp: Option<&str>, srv: Option<&str>,
         }
     }
     if let Some(srv) = srv {
-        if <&ServerName>::try_from(srv).is_err() {
-            t3.push(format!("{ty}: server_name() returns a string the ServerName parser rejects"));
+        match <&ServerName>::try_from(srv) {
+            Err(_) => t3.push(format!("{ty}: server_name() returns a string the ServerName parser rejects")),
+            Ok(sn) => {
+                // the accessors of the returned server name must not panic either
+                if h_util::guarded(|| (sn.host().to_owned(), sn.port(), sn.is_ip_literal())).is_err() {
+                    t3.push(format!("{ty}: host()/port()/is_ip_literal() of the server name returned by server_name() panicked"));
+                }
+            }
         }
     }
 }
@@ -587,6 +593,16 @@ fn run_mxc(s: &str, t3: &mut Vec<String>) -> String {
         Ok(Err(())) => "err err".into(),
         Err(()) => "panic panic".into(),
     };
+    if valid.is_err() || parts.is_err() {
+        t3.push("MxcUri::is_valid() / parts() panicked".into());
+    }
+    if let Ok(Ok((a, _))) = &parts {
+        if let Ok(sn) = <&ServerName>::try_from(a.as_str()) {
+            if h_util::guarded(|| (sn.host().to_owned(), sn.port(), sn.is_ip_literal())).is_err() {
+                t3.push("host()/port()/is_ip_literal() of the server name returned by MxcUri::parts() panicked".into());
+            }
+        }
+    }
     if let (Ok(v), Ok(p)) = (&valid, &parts) {
         if *v != p.is_ok() {
             t3.push("MxcUri::is_valid disagrees with parts().is_ok()".into());
@@ -604,6 +620,11 @@ fn run_id(kind: Kind, s: &str, compact: bool, t3: &mut Vec<String>) -> String {
         return if compact { "e".into() } else { "err".into() };
     }
     let f = fields(kind, s, t3);
+    if f.iter().any(|t| t == "panic") {
+        // "accessors never panic": a panic of an accessor on an identifier the parser accepted is a
+        // violation by itself, whatever the model says about acceptance
+        t3.push(format!("an accessor of the accepted {kind:?} identifier panicked"));
+    }
     let mut out = if compact { vec!["o".to_owned()] } else { vec!["ok".to_owned(), stok(s)] };
     out.extend(f);
     out.join(" ")
